@@ -622,8 +622,10 @@ func (c *Conn) readRecordOrCCS(expectChangeCipherSpec bool) error {
 			msg := fmt.Sprintf("received record with version %x when expecting version %x", vers, c.vers)
 			return c.in.setErrorLocked(c.newRecordHeaderError(c.remoteAddr, msg))
 		}
-		if !c.haveVers {
+		if !c.haveVers && c.handBuf.Len() == 0 {
 			// 协议识别启发式：首次收到记录时，通过版本号区分 DTLCP/TLCP 与 DTLS。
+			// 仅对首条记录生效：会话重用时 ServerHello 与 CCS、Finished 位于同一数据报，
+			// 解析完 ServerHello 之前版本尚未确定，后续记录不应再按“首条记录”规则拒绝。
 			// DTLCP 沿用 TLCP 版本号 0x0101，TLS 为 0x0301~0x0304，均 < 0x1000；
 			// DTLS 1.0(0xFEFF)/1.2(0xFEFD) 均 >= 0x1000。
 			// 配合首条记录必须为 Alert 或 Handshake 的类型检查，可有效防止 DTLS 客户端误连。
